@@ -168,5 +168,16 @@ void aws_thread_pending_join_add(struct aws_linked_list_node *node) {
 }
 
 void aws_thread_initialize_thread_management(void) {
-    aws_linked_list_init(&s_pending_join_managed_threads);
+    /*
+     * Runs at every aws_common_library_init(), also at the start of a second library lifetime. The list must survive
+     * that: when the managed join of the previous aws_common_library_clean_up() timed out, managed threads may still be
+     * running or may have parked their wrapper here since, still counted as unjoined. Emptying the list would leave
+     * such a thread unjoined forever and the count above zero, so every later unbounded
+     * aws_thread_join_all_managed() would wait forever. Only a list that was never set up needs initializing.
+     */
+    aws_mutex_lock(&s_managed_thread_lock);
+    if (s_pending_join_managed_threads.head.next == NULL) {
+        aws_linked_list_init(&s_pending_join_managed_threads);
+    }
+    aws_mutex_unlock(&s_managed_thread_lock);
 }
